@@ -771,6 +771,68 @@ Proof.
   - unfold getitem_conv at 1. rewrite HT. reflexivity.
 Qed.
 
+(* ------------------------------------------------------------------ nested typing Unions are flattened *)
+Local Open Scope list_scope.
+Lemma mapM_app {A B} (f : A -> res B) l1 l2 :
+  mapM f (l1 ++ l2) = (a <- mapM f l1 ;; b <- mapM f l2 ;; Ok (a ++ b)).
+Proof.
+  induction l1 as [|x t IH]; cbn [mapM app bind].
+  - destruct (mapM f l2); reflexivity.
+  - destruct (f x) as [y|e]; cbn [bind]; [|reflexivity]. rewrite IH.
+    destruct (mapM f t) as [ys|e]; cbn [bind]; [|reflexivity]. destruct (mapM f l2); reflexivity.
+Qed.
+
+Lemma flatten_app l1 l2 : flatten_union (l1 ++ l2) = flatten_union l1 ++ flatten_union l2.
+Proof. unfold flatten_union. apply flat_map_app. Qed.
+
+Lemma keeps_flat l : keeps_as_written l = true -> existsb is_ounion (map none_to_nonetype l) = false.
+Proof.
+  unfold keeps_as_written. intros H. apply andb_true_iff in H. destruct H as [H _].
+  apply andb_true_iff in H. destruct H as [H _]. apply negb_true_iff in H. exact H.
+Qed.
+
+(* typing.Union[l0..., typing.Union[l1...], l2...] is typing.Union[l0..., l1..., l2...]: whatever the outer members
+   are (typing's de-duplication included), provided typing keeps the INNER union as written *)
+Lemma mk_union_nested l0 l1 l2 :
+  keeps_as_written l1 = true -> mk_union (l0 ++ mk_union l1 :: l2) = mk_union (l0 ++ l1 ++ l2).
+Proof.
+  intros K. rewrite (keeps_mk_union _ K). unfold mk_union.
+  rewrite !map_app. cbn [map none_to_nonetype]. rewrite !flatten_app.
+  change (flatten_union (OUnion (map none_to_nonetype l1) :: map none_to_nonetype l2))
+    with (map none_to_nonetype l1 ++ flatten_union (map none_to_nonetype l2)).
+  rewrite (flatten_id _ (keeps_flat _ K)). reflexivity.
+Qed.
+
+Lemma pyeval_union_nested l0 l1 l2 :
+  union_written l1 = true -> pyeval (TUnion (l0 ++ TUnion l1 :: l2)) = pyeval (TUnion (l0 ++ l1 ++ l2)).
+Proof.
+  intros Hw. destruct (union_written_spec l1 Hw) as [objs1 [E1 K1]].
+  rewrite !pyeval_union, !mapM_app. cbn [mapM]. rewrite pyeval_union, E1. cbn [bind].
+  destruct (mapM pyeval l0) as [o0|x]; [|reflexivity]. cbn [bind].
+  destruct (mapM pyeval l2) as [o2|x]; [|reflexivity]. cbn [bind].
+  rewrite (mk_union_nested o0 objs1 o2 K1). reflexivity.
+Qed.
+
+Lemma pyeval_optional_eq a : pyeval (TOptional a) = pyeval (TUnion [a; TNone]).
+Proof. rewrite pyeval_union. cbn [pyeval mapM]. destruct (pyeval a) as [o|x]; reflexivity. Qed.
+
+Lemma pyeval_union_pointwise l l' :
+  Forall2 (fun a b => pyeval a = pyeval b) l l' -> pyeval (TUnion l) = pyeval (TUnion l').
+Proof.
+  intros H. rewrite !pyeval_union.
+  assert (HM : mapM pyeval l = mapM pyeval l').
+  { induction H as [|a b t t' Hab _ IH]; [reflexivity|]. cbn [mapM]. rewrite Hab, IH. reflexivity. }
+  rewrite HM. reflexivity.
+Qed.
+
+Lemma pyeval_union_opt_member l0 a l2 :
+  pyeval (TUnion (l0 ++ TOptional a :: l2)) = pyeval (TUnion (l0 ++ TUnion [a; TNone] :: l2)).
+Proof.
+  apply pyeval_union_pointwise. induction l0 as [|x t IH]; cbn [app].
+  - constructor; [apply pyeval_optional_eq|]. induction l2; constructor; auto.
+  - constructor; [reflexivity|exact IH].
+Qed.
+
 Lemma case_or_sub a a' b b' :
   req (pyeval a) (pyeval a') -> req (pyeval b) (pyeval b') -> or_left a = true -> or_right_ok b = true ->
   req (pyeval (TOr a b)) (pyeval (TSub (s2p "AnyOf") [a'; b'])).
@@ -840,6 +902,12 @@ Inductive sp_eq : tyexpr -> tyexpr -> Prop :=
 | sp_or_sub a a' b b' :
     sp_eq a a' -> sp_eq b b' -> or_left a = true -> or_right_ok b = true ->
     sp_eq (TOr a b) (TSub (s2p "AnyOf") [a'; b'])
+(* typing flattens nested Unions: Union[A, Union[B, C]] ~ Union[A, B, C]; Optional[Union[A, B]] ~ Union[A, B, None] *)
+| sp_union_flat l0 l1 l2 :
+    union_written l1 = true -> sp_eq (TUnion (l0 ++ TUnion l1 :: l2)) (TUnion (l0 ++ l1 ++ l2))
+(* Union[A, Optional[B]] ~ Union[A, Union[B, None]] *)
+| sp_union_opt_member l0 a l2 :
+    sp_eq (TUnion (l0 ++ TOptional a :: l2)) (TUnion (l0 ++ TUnion [a; TNone] :: l2))
 with sp_eqs : list tyexpr -> list tyexpr -> Prop :=
 | sps_nil : sp_eqs [] []
 | sps_cons a a' l l' : sp_eq a a' -> sp_eqs l l' -> sp_eqs (a :: l) (a' :: l').
@@ -871,6 +939,8 @@ Proof.
   - apply case_union_cong; assumption.
   - apply case_union_sub; assumption.
   - apply case_or_sub; assumption.
+  - rewrite pyeval_union_nested by assumption. apply req_refl.
+  - rewrite pyeval_union_opt_member. apply req_refl.
   - cbn. constructor.
   - apply lreq_cons; assumption.
 Qed.
